@@ -1,3 +1,684 @@
-/- C10: property theorems (none yet). -/
+/-
+C10 — Module lifecycle and name registry are linearizable.
+
+Part A: the sequential specification `Reg` has the properties the statement lists, for every operation
+        list (induction).
+Part B: witness theorems: the implementation model as on the pinned tree (`Cfg.asIs`) does not refine
+        `Reg` (F8, F9 sequentially; F10, F10b, F10c under concrete interleavings).
+Part C: the repaired variant refines `Reg` on every sequential run (`seq_refinement`).
+Part D: close effects under ALL interleavings (any number of threads, any programs, any schedule, any
+        variant): resources are released at most once (`close_effects_once_partial`).
+-/
+import Wz.Proofs.C10_Refine
+import Wz.Gen.C10Sections
+
 namespace Wz.C10
+open Wz.Model.Registry
+
+/-! ## Part A: the specification -/
+
+/-- At most one open module owns a name; handles are unique; after the runtime is closed everything is closed. -/
+structure RegInv (r : Reg) : Prop where
+  uniqH : (r.mods.map (·.h)).Nodup
+  oneOwner : ∀ a ∈ r.mods, ∀ b ∈ r.mods, a.isOpen = true → b.isOpen = true → a.name ≠ 0 →
+    a.name = b.name → a.h = b.h
+  closedAll : r.rtClosed = true → ∀ m ∈ r.mods, m.isOpen = false
+
+theorem closeMods_map_h (h : Nat) (ms : List Mod) : (closeMods h ms).map (·.h) = ms.map (·.h) := by
+  induction ms with
+  | nil => rfl
+  | cons m ms ih => simp only [closeMods, List.map_cons, ih]; split <;> rfl
+
+theorem closeAllMods_map_h (ms : List Mod) : (closeAllMods ms).map (·.h) = ms.map (·.h) := by
+  induction ms with
+  | nil => rfl
+  | cons m ms ih => simp only [closeAllMods, List.map_cons, ih]
+
+theorem mem_closeMods {h : Nat} {ms : List Mod} {x : Mod} (hx : x ∈ closeMods h ms) :
+    ∃ m ∈ ms, x.h = m.h ∧ x.name = m.name ∧ (x.isOpen = true → m.isOpen = true ∧ m.h ≠ h) := by
+  induction ms with
+  | nil => simp [closeMods] at hx
+  | cons m ms ih =>
+    simp only [closeMods, List.mem_cons] at hx
+    cases hx with
+    | inl e =>
+      refine ⟨m, List.mem_cons_self, ?_⟩
+      by_cases hm : (m.h == h) = true
+      · simp only [hm, if_true] at e; subst e; simp
+      · simp only [hm] at e; subst e
+        refine ⟨rfl, rfl, fun ho => ⟨ho, ?_⟩⟩
+        simpa using hm
+    | inr e =>
+      obtain ⟨m', hm', rest⟩ := ih e
+      exact ⟨m', List.mem_cons_of_mem _ hm', rest⟩
+
+theorem mem_closeAllMods {ms : List Mod} {x : Mod} (hx : x ∈ closeAllMods ms) : x.isOpen = false := by
+  induction ms with
+  | nil => simp [closeAllMods] at hx
+  | cons m ms ih =>
+    simp only [closeAllMods, List.mem_cons] at hx
+    cases hx with
+    | inl e => subst e; rfl
+    | inr e => exact ih e
+
+theorem has_false {r : Reg} {h : Nat} (hh : r.has h = false) : h ∉ r.mods.map (·.h) := by
+  intro hm
+  simp only [List.mem_map] at hm
+  obtain ⟨m, hm, e⟩ := hm
+  simp only [Reg.has, List.any_eq_false] at hh
+  exact hh m hm (by simp [e])
+
+theorem owner_find {r : Reg} {n : Nat} (hn : n ≠ 0) :
+    r.owner n = (r.mods.find? (fun m => m.isOpen && m.name == n)).map (·.h) := by
+  simp [Reg.owner, hn]
+
+theorem owner_none {r : Reg} {n : Nat} (hn : n ≠ 0) (ho : r.owner n = none) :
+    ∀ m ∈ r.mods, m.isOpen = true → m.name ≠ n := by
+  intro m hm hopen e
+  rw [owner_find hn] at ho
+  have h1 : r.mods.find? (fun m => m.isOpen && m.name == n) = none := by simpa using ho
+  have := List.find?_eq_none.mp h1 m hm
+  simp [hopen, e] at this
+
+theorem has_iff (r : Reg) (h : Nat) : r.has h = true ↔ h ∈ r.mods.map (·.h) := by
+  simp only [Reg.has, List.any_eq_true, List.mem_map, beq_iff_eq]
+
+/-- Every operation preserves the invariant. -/
+theorem step_inv (r : Reg) (op : Op) (hi : RegInv r) : RegInv (r.step op).1 := by
+  cases op with
+  | instantiate h name pre =>
+    simp only [Reg.step]
+    by_cases hc : r.rtClosed = true
+    · simp only [hc, if_true]; exact hi
+    have hc' : r.rtClosed = false := by simpa using hc
+    simp only [hc', Bool.false_eq_true, if_false]
+    by_cases hh : r.has h = true
+    · simp only [hh, if_true]; exact hi
+    · have hh' : r.has h = false := by simpa using hh
+      have hnot := has_false hh'
+      simp only [hh', Bool.false_eq_true, if_false]
+      by_cases ho : (r.owner name).isSome = true
+      · simp only [ho, if_true]
+        refine ⟨?_, ?_, ?_⟩
+        · simpa [List.nodup_cons] using And.intro (by simpa using hnot) hi.uniqH
+        · intro a ha b hb hao hbo hn e
+          simp only [List.mem_cons] at ha hb
+          rcases ha with rfl | ha
+          · simp at hao
+          rcases hb with rfl | hb
+          · simp at hbo
+          exact hi.oneOwner a ha b hb hao hbo hn e
+        · intro hcl; simp [hc'] at hcl
+      · have ho' : r.owner name = none := by
+          cases hq : r.owner name with
+          | none => rfl
+          | some v => simp [hq] at ho
+        simp only [ho', Option.isSome_none, Bool.false_eq_true, if_false]
+        refine ⟨?_, ?_, ?_⟩
+        · simpa [List.nodup_cons] using And.intro (by simpa using hnot) hi.uniqH
+        · intro a ha b hb hao hbo hn e
+          simp only [List.mem_cons] at ha hb
+          rcases ha with rfl | ha
+          · rcases hb with rfl | hb
+            · rfl
+            · exact absurd e.symm (owner_none hn ho' b hb hbo)
+          · rcases hb with rfl | hb
+            · have e' : a.name = name := e
+              exact absurd e' (owner_none (by rw [← e']; exact hn) ho' a ha hao)
+            · exact hi.oneOwner a ha b hb hao hbo hn e
+        · intro hcl; simp [hc'] at hcl
+  | lookup name => simp only [Reg.step]; split <;> exact hi
+  | compile => exact hi
+  | hostCompile f => exact hi
+  | closeModule h code =>
+    simp only [Reg.step]
+    split
+    · refine ⟨?_, ?_, ?_⟩
+      · simpa [closeMods_map_h] using hi.uniqH
+      · intro a ha b hb hao hbo hn e
+        obtain ⟨a', ha', eh, en, hoa⟩ := mem_closeMods ha
+        obtain ⟨b', hb', eh', en', hob⟩ := mem_closeMods hb
+        rw [eh, eh']
+        exact hi.oneOwner a' ha' b' hb' (hoa hao).1 (hob hbo).1 (by rw [← en]; exact hn) (by rw [← en, ← en']; exact e)
+      · intro hcl m hm
+        obtain ⟨m', hm', _, _, hom⟩ := mem_closeMods hm
+        cases hmo : m.isOpen with
+        | false => rfl
+        | true => have := hi.closedAll hcl m' hm'; simp [(hom hmo).1] at this
+    · exact hi
+  | closeRuntime code =>
+    simp only [Reg.step]
+    refine ⟨?_, ?_, ?_⟩
+    · simpa [closeAllMods_map_h] using hi.uniqH
+    · intro a ha b hb hao; simp [mem_closeAllMods ha] at hao
+    · intro _ m hm; exact mem_closeAllMods hm
+  | isClosed h => simp only [Reg.step]; split <;> exact hi
+
+theorem init_inv : RegInv Reg.init := ⟨by simp [Reg.init], by simp [Reg.init], by simp [Reg.init]⟩
+
+theorem run_fst (r : Reg) (op : Op) (ops : List Op) :
+    (Reg.run r (op :: ops)).1 = (Reg.run (r.step op).1 ops).1 := rfl
+
+theorem run_inv (ops : List Op) (r : Reg) (hi : RegInv r) : RegInv (Reg.run r ops).1 := by
+  induction ops generalizing r with
+  | nil => exact hi
+  | cons op ops ih => rw [run_fst]; exact ih _ (step_inv r op hi)
+
+/-- **Specification invariants**, for every operation list: handles unique, at most one open owner per
+name, everything closed once the runtime is closed. -/
+theorem reg_spec_invariants (ops : List Op) : RegInv (Reg.run Reg.init ops).1 := run_inv ops _ init_inv
+
+/-- Lookups return only open modules that carry the requested (non-anonymous) name. -/
+theorem lookup_only_open (r : Reg) (n h : Nat) (hf : (r.step (.lookup n)).2 = .found h) :
+    n ≠ 0 ∧ ∃ m ∈ r.mods, m.h = h ∧ m.isOpen = true ∧ m.name = n := by
+  simp only [Reg.step] at hf
+  split at hf
+  · rename_i h' ho
+    simp only [Res.found.injEq] at hf; subst hf
+    simp only [Reg.owner] at ho
+    split at ho
+    · simp at ho
+    · rename_i hn
+      simp only [Option.map_eq_some_iff] at ho
+      obtain ⟨m, hfind, e⟩ := ho
+      have hmem := List.mem_of_find?_eq_some hfind
+      have hp := List.find?_some hfind
+      simp only [Bool.and_eq_true, beq_iff_eq] at hp
+      exact ⟨by simpa using hn, m, hmem, e, hp.1, hp.2⟩
+  · simp at hf
+
+/-- Instantiating under a name succeeds exactly when the handle is fresh, the runtime is open and no open
+module owns the name; it fails with `errDup` exactly when an open module owns it. -/
+theorem instantiate_result (r : Reg) (h n : Nat) (p : Pre) (hh : r.has h = false) :
+    ((r.step (.instantiate h n p)).2 = .ok ↔ r.rtClosed = false ∧ r.owner n = none) ∧
+    ((r.step (.instantiate h n p)).2 = .errDup ↔ r.rtClosed = false ∧ (r.owner n).isSome = true) ∧
+    ((r.step (.instantiate h n p)).2 = .errClosed ↔ r.rtClosed = true) := by
+  simp only [Reg.step, hh, Bool.false_eq_true, if_false]
+  cases hc : r.rtClosed <;> cases ho : r.owner n <;> simp
+
+/-- A closed module's name can be taken again. -/
+theorem closed_name_reusable (r : Reg) (hi : RegInv r) (n h c : Nat) (ho : r.owner n = some h) :
+    (r.step (.closeModule h c)).1.owner n = none := by
+  have hn : n ≠ 0 := by
+    intro e; simp [Reg.owner, e] at ho
+  rw [owner_find hn] at ho
+  obtain ⟨m, hfind, e⟩ : ∃ m, r.mods.find? (fun m => m.isOpen && m.name == n) = some m ∧ m.h = h := by
+    simpa using ho
+  have hmem := List.mem_of_find?_eq_some hfind
+  have hp := List.find?_some hfind
+  simp only [Bool.and_eq_true, beq_iff_eq] at hp
+  have hhas : r.has h = true := (has_iff r h).mpr (List.mem_map.mpr ⟨m, hmem, e⟩)
+  have hstep : (r.step (.closeModule h c)).1 = { r with mods := closeMods h r.mods } := by
+    simp [Reg.step, hhas]
+  rw [hstep, owner_find hn]
+  have : (closeMods h r.mods).find? (fun m => m.isOpen && m.name == n) = none := by
+    apply List.find?_eq_none.mpr
+    intro x hx hcon
+    obtain ⟨x', hx', eh, en, hox⟩ := mem_closeMods hx
+    simp only [Bool.and_eq_true, beq_iff_eq] at hcon
+    have h1 := hox hcon.1
+    have := hi.oneOwner x' hx' m hmem h1.1 hp.1 (by rw [← en, hcon.2]; exact hn) (by rw [← en, hcon.2, hp.2])
+    exact h1.2 (by rw [this, e])
+  simp [this]
+
+theorem rtClosed_stable (r : Reg) (op : Op) (hc : r.rtClosed = true) : (r.step op).1.rtClosed = true := by
+  cases op <;> simp only [Reg.step] <;> (repeat' split) <;> simp_all
+
+/-- Requests that must fail once the runtime is closed. -/
+def FailsIfRequest : Op → Res → Prop
+  | .instantiate _ _ _, x => x = .errClosed ∨ x = .bad
+  | .compile, x => x = .errClosed
+  | .hostCompile _, x => x = .errClosed
+  | .lookup _, x => x = .notFound
+  | .isClosed _, x => x = .closedIs true ∨ x = .bad
+  | _, _ => True
+
+def AllFail : List Op → List Res → Prop
+  | op :: ops, x :: xs => FailsIfRequest op x ∧ AllFail ops xs
+  | [], [] => True
+  | _, _ => False
+
+theorem closed_step_fails (r : Reg) (hi : RegInv r) (op : Op) (hc : r.rtClosed = true) :
+    FailsIfRequest op (r.step op).2 := by
+  cases op with
+  | instantiate h n p =>
+    simp [Reg.step, FailsIfRequest, hc]
+  | compile => simp [Reg.step, FailsIfRequest, hc]
+  | hostCompile f => simp [Reg.step, FailsIfRequest, hc]
+  | lookup n =>
+    simp only [FailsIfRequest]
+    cases hr : (r.step (.lookup n)).2 with
+    | found h =>
+      obtain ⟨_, m, hm, _, hopen, _⟩ := lookup_only_open r n h hr
+      have := hi.closedAll hc m hm; simp [hopen] at this
+    | notFound => rfl
+    | _ => simp only [Reg.step] at hr; split at hr <;> simp at hr
+  | isClosed h =>
+    simp only [Reg.step, FailsIfRequest]
+    split
+    · left
+      have : r.isOpen h = false := by
+        simp only [Reg.isOpen, List.any_eq_false]
+        intro m hm; simp [hi.closedAll hc m hm]
+      simp [this]
+    · right; rfl
+  | closeModule h c => trivial
+  | closeRuntime c => trivial
+
+/-- Once the runtime is closed, EVERY later compile / host compile / instantiate fails with an error, every
+lookup finds nothing and every module reports closed — for every continuation. -/
+theorem after_close_all_fail (ops : List Op) (r : Reg) (hi : RegInv r) (hc : r.rtClosed = true) :
+    AllFail ops (Reg.run r ops).2 := by
+  induction ops generalizing r with
+  | nil => simp [Reg.run, AllFail]
+  | cons op ops ih =>
+    simp only [Reg.run, AllFail]
+    exact ⟨closed_step_fails r hi op hc, ih _ (step_inv r op hi) (rtClosed_stable r op hc)⟩
+
+theorem close_runtime_closes (r : Reg) (c : Nat) :
+    (r.step (.closeRuntime c)).1.rtClosed = true ∧ ∀ m ∈ (r.step (.closeRuntime c)).1.mods, m.isOpen = false :=
+  ⟨rfl, fun _ hm => mem_closeAllMods hm⟩
+
+theorem closeMods_idem (h : Nat) (ms : List Mod) : closeMods h (closeMods h ms) = closeMods h ms := by
+  induction ms with
+  | nil => rfl
+  | cons m ms ih =>
+    simp only [closeMods, ih]
+    by_cases hm : (m.h == h) = true <;> simp [hm]
+
+/-- Closing is idempotent. -/
+theorem close_idempotent (r : Reg) (h c c' : Nat) (hh : r.has h = true) :
+    (r.step (.closeModule h c)).1.step (.closeModule h c') = ((r.step (.closeModule h c)).1, .ok) := by
+  have hstep : (r.step (.closeModule h c)).1 = { r with mods := closeMods h r.mods } := by
+    simp [Reg.step, hh]
+  have h2 : Reg.has { r with mods := closeMods h r.mods } h = true := by
+    rw [has_iff]; simp only [closeMods_map_h]; exact (has_iff r h).mp hh
+  rw [hstep]
+  simp [Reg.step, h2, closeMods_idem]
+
+/-- Non-vacuity: a reachable state with an open owner, a closed module and a reused name. -/
+example : (Reg.run Reg.init [.instantiate 1 1 .none, .instantiate 2 1 .none, .closeModule 1 0,
+    .instantiate 3 1 .bin, .lookup 1, .closeRuntime 0, .lookup 1, .compile]).2 =
+    [.ok, .errDup, .ok, .ok, .found 3, .ok, .notFound, .errClosed] := by decide
+
+/-! ## Part B: witnesses on the as-is model -/
+
+/-- F8: instantiate x; instantiate x (fails, and unregisters the owner); lookup x; instantiate x. -/
+def f8Ops : List Op := [.instantiate 1 1 .none, .instantiate 2 1 .none, .lookup 1, .instantiate 3 1 .none, .isClosed 1]
+
+theorem dup_name_witness :
+    (Impl.run Cfg.asIs Impl.init f8Ops).2 = [.ok, .errDup, .notFound, .ok, .closedIs false] ∧
+    (Reg.run Reg.init f8Ops).2 = [.ok, .errDup, .found 1, .errDup, .closedIs false] ∧
+    (Impl.run { Cfg.asIs with fixF8 := true } Impl.init f8Ops).2 = (Reg.run Reg.init f8Ops).2 := by decide
+
+/-- F9: host compile after the runtime is closed panics (with functions) or succeeds (without). -/
+def f9Ops : List Op := [.closeRuntime 0, .hostCompile true, .hostCompile false, .instantiate 1 1 .host]
+
+theorem host_compile_witness :
+    (Impl.run Cfg.asIs Impl.init f9Ops).2 = [.ok, .panic, .ok, .panic] ∧
+    (Reg.run Reg.init f9Ops).2 = [.ok, .errClosed, .errClosed, .errClosed] ∧
+    (Impl.run { Cfg.asIs with fixF9 := true } Impl.init f9Ops).2 = (Reg.run Reg.init f9Ops).2 := by decide
+
+/-- All interleavings of two sequences (fuel = total length + 1 suffices: every step consumes one element). -/
+def mergesF {α : Type} : Nat → List α → List α → List (List α)
+  | 0, _, _ => []
+  | _ + 1, [], ys => [ys]
+  | _ + 1, xs, [] => [xs]
+  | n + 1, x :: xs, y :: ys => (mergesF n xs (y :: ys)).map (x :: ·) ++ (mergesF n (x :: xs) ys).map (y :: ·)
+
+def merges {α : Type} (xs ys : List α) : List (List α) := mergesF (xs.length + ys.length + 1) xs ys
+
+/-- test: two sequences of length 2 have 6 interleavings -/
+example : (merges [1, 2] [3, 4]).length = 6 := by decide
+
+/-- Is there ANY sequential order of the two threads' operations (respecting only program order — weaker
+than real-time order, so `false` is the stronger statement) in which `Reg` gives the observed results? -/
+def linearizable2 (t0 t1 : List (Op × Res)) : Bool :=
+  (merges t0 t1).any (fun seq => (Reg.run Reg.init (seq.map (·.1))).2 == seq.map (·.2))
+
+def resultsOf (c : Conc) : List (List (Op × Res)) := c.threads.map (·.results)
+
+/-- F10: thread 0 instantiates x and closes it; thread 1 closes the same module (CAS loser: returns at
+once) and then still finds it under its name. No sequential order explains these results. -/
+theorem double_close_witness :
+    let c := (Conc.start [[.instantiate 1 1 .none, .closeModule 1 0], [.closeModule 1 0, .lookup 1]]).exec Cfg.asIs
+      [0, 0, 0, 0, 0, 0, 0, 1, 1, 1, 1, 1, 1, 0, 0, 0]
+    resultsOf c = [[(.instantiate 1 1 .none, .ok), (.closeModule 1 0, .ok)],
+                   [(.closeModule 1 0, .ok), (.lookup 1, .found 1)]] ∧
+    linearizable2 (resultsOf c)[0]! (resultsOf c)[1]! = false := by decide
+
+/-- With CAS and deleteModule in one atomic action the same schedule gives a linearizable history. -/
+theorem double_close_repaired :
+    let c := (Conc.start [[.instantiate 1 1 .none, .closeModule 1 0], [.closeModule 1 0, .lookup 1]]).exec
+      { Cfg.asIs with atomicClose := true } [0, 0, 0, 0, 0, 0, 0, 1, 1, 1, 1, 1, 1, 0, 0, 0]
+    linearizable2 (resultsOf c)[0]! (resultsOf c)[1]! = true := by decide
+
+/-- F10b: the runtime's closed flag is set before the store is closed: a compile fails with "closed" and a
+lookup afterwards still finds an open module. -/
+theorem rt_close_window_witness :
+    let c := (Conc.start [[.instantiate 1 1 .none, .closeRuntime 0], [.compile, .lookup 1]]).exec Cfg.asIs
+      [0, 0, 0, 0, 0, 0, 0, 1, 1, 1, 1, 1, 1, 0, 0]
+    resultsOf c = [[(.instantiate 1 1 .none, .ok), (.closeRuntime 0, .ok)],
+                   [(.compile, .errClosed), (.lookup 1, .found 1)]] ∧
+    linearizable2 (resultsOf c)[0]! (resultsOf c)[1]! = false := by decide
+
+/-- F10c: the close notifier is attached after registration: a runtime close in between closes the
+instance without notification, although instantiate returns ok. -/
+theorem notifier_lost_witness :
+    let c := (Conc.start [[.instantiate 1 1 .none], [.closeRuntime 3]]).exec Cfg.asIs
+      [0, 0, 0, 1, 1, 1, 1, 0, 0]
+    resultsOf c = [[(.instantiate 1 1 .none, .ok)], [(.closeRuntime 3, .ok)]] ∧
+    c.shared.insts.map (fun i => (i.h, i.closed, i.notified)) = [(1, some 3, [])] := by decide
+
+/-! ### simulation between the repaired implementation model and `Reg` (sequential runs) -/
+
+def absInst (i : Inst) : Mod := ⟨i.h, i.name, i.closed.isNone⟩
+def abs (s : Impl) : Reg := ⟨s.insts.map absInst, s.rtClosed.isSome⟩
+
+structure Good (s : Impl) : Prop where
+  rt : s.names = none ↔ s.rtClosed.isSome = true
+  nm : ∀ m, s.names = some m → ∀ n, n ≠ 0 → nameLookup n m = (abs s).owner n
+  lst : ∀ i ∈ s.insts, i.closed = none → i.h ∈ s.list
+  inv : RegInv (abs s)
+
+theorem absInst_ensureRes (i : Inst) : absInst (ensureRes i) = absInst i := by
+  unfold ensureRes absInst
+  cases hn : i.notifier <;> cases hs : i.sys <;> simp [hs]
+
+theorem abs_has (s : Impl) (h : Nat) : (abs s).has h = s.has h := by
+  simp [abs, Reg.has, Impl.has, List.any_map, Function.comp_def, absInst]
+
+theorem map_updInst_same (h : Nat) (f : Inst → Inst) (hf : ∀ i, absInst (f i) = absInst i) (l : List Inst) :
+    (updInst h f l).map absInst = l.map absInst := by
+  induction l with
+  | nil => rfl
+  | cons a l ih => simp only [updInst, List.map_cons, ih]; split <;> simp [hf]
+
+theorem map_updInst_close (h c : Nat) (l : List Inst) :
+    (updInst h (fun i => { i with closed := some c }) l).map absInst = closeMods h (l.map absInst) := by
+  induction l with
+  | nil => rfl
+  | cons a l ih =>
+    simp only [updInst, List.map_cons, closeMods, ih]
+    by_cases ha : (a.h == h) = true <;> simp [ha, absInst]
+
+theorem get_none_has (s : Impl) (h : Nat) : s.get h = none ↔ s.has h = false := by
+  simp [Impl.get, Impl.has, List.find?_eq_none, List.any_eq_false]
+
+theorem nameLookup_erase_ne (n k : Nat) (hk : n ≠ k) (m : List (Nat × Nat)) :
+    nameLookup n (nameErase k m) = nameLookup n m := by
+  induction m with
+  | nil => rfl
+  | cons a m ih =>
+    obtain ⟨a1, a2⟩ := a
+    simp only [nameErase, nameLookup]
+    by_cases h1 : (a1 == k) = true
+    · have : (a1 == n) = false := by
+        have : a1 = k := by simpa using h1
+        subst this; simpa using (Ne.symm hk)
+      simp [h1, this, ih]
+    · have h1' : (a1 == k) = false := by simpa using h1
+      simp [h1', nameLookup, ih]
+
+theorem nameLookup_erase_self (k : Nat) (m : List (Nat × Nat)) : nameLookup k (nameErase k m) = none := by
+  induction m with
+  | nil => rfl
+  | cons a m ih =>
+    obtain ⟨a1, a2⟩ := a
+    simp only [nameErase]
+    by_cases h1 : (a1 == k) = true
+    · simp [h1, ih]
+    · have h1' : (a1 == k) = false := by simpa using h1
+      simp [h1', nameLookup, ih]
+
+/-- closing handle `h` does not change the owner of `n` when no open module with handle `h` has name `n` -/
+theorem find_closeMods (h n : Nat) (ms : List Mod) (hne : ∀ m ∈ ms, m.h = h → ¬ (m.isOpen = true ∧ m.name = n)) :
+    (closeMods h ms).find? (fun m => m.isOpen && m.name == n) = ms.find? (fun m => m.isOpen && m.name == n) := by
+  induction ms with
+  | nil => rfl
+  | cons a ms ih =>
+    have ih' := ih (fun m hm => hne m (List.mem_cons_of_mem _ hm))
+    simp only [closeMods]
+    by_cases ha : (a.h == h) = true
+    · have := hne a List.mem_cons_self (by simpa using ha)
+      have hp : (a.isOpen && a.name == n) = false := by
+        cases ho : a.isOpen <;> simp_all
+      simp [ha, List.find?_cons, hp, ih']
+    · simp [ha, List.find?_cons, ih']
+
+theorem closeAll_id (ms : List Mod) (hc : ∀ m ∈ ms, m.isOpen = false) : closeAllMods ms = ms := by
+  induction ms with
+  | nil => rfl
+  | cons a ms ih =>
+    simp only [closeAllMods, ih (fun m hm => hc m (List.mem_cons_of_mem _ hm))]
+    have := hc a List.mem_cons_self
+    cases a; simp_all
+
+theorem closeMods_id (h : Nat) (ms : List Mod) (hc : ∀ m ∈ ms, m.h = h → m.isOpen = false) : closeMods h ms = ms := by
+  induction ms with
+  | nil => rfl
+  | cons a ms ih =>
+    simp only [closeMods, ih (fun m hm => hc m (List.mem_cons_of_mem _ hm))]
+    by_cases ha : (a.h == h) = true
+    · have := hc a List.mem_cons_self (by simpa using ha)
+      cases a; simp_all
+    · simp [ha]
+
+theorem owner_allClosed (r : Reg) (n : Nat) (hc : ∀ m ∈ r.mods, m.isOpen = false) : r.owner n = none := by
+  by_cases hn : n = 0
+  · simp [Reg.owner, hn]
+  · rw [owner_find hn]
+    have : r.mods.find? (fun m => m.isOpen && m.name == n) = none :=
+      List.find?_eq_none.mpr (fun m hm => by simp [hc m hm])
+    simp [this]
+
+theorem map_closeListed (c : Nat) (list : List Nat) (l : List Inst)
+    (hl : ∀ i ∈ l, i.closed = none → i.h ∈ list) :
+    (closeListed c list l).map absInst = closeAllMods (l.map absInst) := by
+  induction l with
+  | nil => rfl
+  | cons a l ih =>
+    simp only [closeListed, List.map_cons, closeAllMods, ih (fun i hi => hl i (List.mem_cons_of_mem _ hi))]
+    congr 1
+    by_cases hin : list.contains a.h = true
+    · simp only [hin, if_true]
+      unfold closeFromStore
+      split
+      · rename_i hs; cases hcl : a.closed <;> simp_all [absInst]
+      · rw [absInst_ensureRes]; simp [absInst]
+    · simp only [hin]
+      cases hcl : a.closed with
+      | none => exact absurd (by simpa using hl a List.mem_cons_self hcl) hin
+      | some v => simp [absInst, hcl]
+
+theorem closeListed_closed (c : Nat) (list : List Nat) (l : List Inst)
+    (hl : ∀ i ∈ l, i.closed = none → i.h ∈ list) : ∀ i ∈ closeListed c list l, i.closed ≠ none := by
+  intro i hi
+  have h1 : absInst i ∈ (closeListed c list l).map absInst := List.mem_map_of_mem hi
+  rw [map_closeListed c list l hl] at h1
+  have := mem_closeAllMods h1
+  simp [absInst] at this
+  intro e; simp [e] at this
+
+def Sim (s : Impl) (op : Op) : Prop :=
+  (s.runOp Cfg.repaired op).2 = ((abs s).step op).2 ∧ abs (s.runOp Cfg.repaired op).1 = ((abs s).step op).1 ∧
+    Good (s.runOp Cfg.repaired op).1
+
+theorem names_some_of_open {s : Impl} (hg : Good s) (ho : s.rtClosed = none) : ∃ m, s.names = some m := by
+  cases hn : s.names with
+  | none => have := hg.rt.mp hn; simp [ho] at this
+  | some m => exact ⟨m, rfl⟩
+
+theorem sim_compile (s : Impl) (hg : Good s) : Sim s .compile := by
+  unfold Sim
+  cases hrt : s.rtClosed with
+  | some c => simp [Impl.runOp, runOpFuel, startPc, stepOp, hrt, Reg.step, abs]; exact hg
+  | none =>
+    obtain ⟨m, hm⟩ := names_some_of_open hg hrt
+    simp [Impl.runOp, runOpFuel, startPc, stepOp, hrt, Reg.step, abs, typesSection, hm, afterCompile]; exact hg
+
+theorem sim_hostCompile (s : Impl) (hg : Good s) (f : Bool) : Sim s (.hostCompile f) := by
+  unfold Sim
+  cases hrt : s.rtClosed with
+  | some c => simp [Impl.runOp, runOpFuel, startPc, stepOp, hrt, Reg.step, abs, Cfg.repaired]; exact hg
+  | none =>
+    obtain ⟨m, hm⟩ := names_some_of_open hg hrt
+    cases f <;>
+      (simp [Impl.runOp, runOpFuel, startPc, stepOp, hrt, Reg.step, abs, typesSection, hm, afterCompile, Cfg.repaired]; exact hg)
+
+theorem sim_lookup (s : Impl) (hg : Good s) (n : Nat) : Sim s (.lookup n) := by
+  unfold Sim
+  by_cases hn : n = 0
+  · subst hn
+    simp [Impl.runOp, runOpFuel, startPc, stepOp, Reg.step, Reg.owner]; exact hg
+  · have hn' : (n == 0) = false := by simpa using hn
+    cases hm : s.names with
+    | none =>
+      have hc := hg.rt.mp hm
+      have hall := hg.inv.closedAll (by simpa [abs] using hc)
+      have := owner_allClosed (abs s) n hall
+      simp [Impl.runOp, runOpFuel, startPc, stepOp, Reg.step, hn', hm, this]; exact hg
+    | some m =>
+      have := hg.nm m hm n hn
+      cases ho : (abs s).owner n with
+      | none => simp [Impl.runOp, runOpFuel, startPc, stepOp, Reg.step, hn', hm, this ▸ ho, ho]; exact hg
+      | some h => simp [Impl.runOp, runOpFuel, startPc, stepOp, Reg.step, hn', hm, this ▸ ho, ho]; exact hg
+
+theorem sim_closeRuntime (s : Impl) (hg : Good s) (c : Nat) : Sim s (.closeRuntime c) := by
+  have hinv := step_inv (abs s) (.closeRuntime c) hg.inv
+  unfold Sim
+  cases hrt : s.rtClosed with
+  | some c0 =>
+    have hall := hg.inv.closedAll (by simp [abs, hrt])
+    have hid := closeAll_id (abs s).mods hall
+    have habs : abs s = ((abs s).step (.closeRuntime c)).1 := by
+      simp only [Reg.step, hid]; simp [abs, hrt]
+    simp only [Impl.runOp, runOpFuel, startPc, stepOp, hrt, Option.isSome_some, if_true]
+    exact ⟨rfl, habs, hg⟩
+  | none =>
+    have hmap := map_closeListed c s.list s.insts hg.lst
+    have habs : abs (storeClose { s with rtClosed := some c } c) = ((abs s).step (.closeRuntime c)).1 := by
+      simp [abs, storeClose, Reg.step, hmap]
+    simp only [Impl.runOp, runOpFuel, startPc, stepOp, hrt, Option.isSome_none, Bool.false_eq_true, if_false,
+      Cfg.repaired, if_true]
+    refine ⟨rfl, habs, ?_⟩
+    refine ⟨by simp [storeClose], by simp [storeClose], ?_, by rw [habs]; exact hinv⟩
+    intro i hi hcl
+    exact absurd hcl (closeListed_closed c s.list s.insts hg.lst i (by simpa [storeClose] using hi))
+
+theorem find_isOpen (l : List Inst) (h : Nat) (i : Inst) (hnd : (l.map (·.h)).Nodup)
+    (hf : l.find? (fun i => i.h == h) = some i) :
+    (l.map absInst).any (fun m => m.h == h && m.isOpen) = i.closed.isNone := by
+  induction l with
+  | nil => simp at hf
+  | cons a l ih =>
+    simp only [List.map_cons, List.nodup_cons] at hnd
+    simp only [List.find?_cons] at hf
+    by_cases ha : (a.h == h) = true
+    · simp only [ha] at hf
+      have : a = i := by simpa using hf
+      subst this
+      have hrest : (l.map absInst).any (fun m => m.h == h && m.isOpen) = false := by
+        simp only [List.any_eq_false, List.mem_map]
+        rintro m ⟨j, hj, rfl⟩
+        have : j.h ≠ h := by
+          intro e
+          have ha' : a.h = h := by simpa using ha
+          exact hnd.1 (List.mem_map.mpr ⟨j, hj, by rw [e, ha']⟩)
+        simp [absInst, this]
+      simp [List.any_cons, hrest, absInst, ha]
+    · have ha' : (a.h == h) = false := by simpa using ha
+      simp only [ha'] at hf
+      simp [List.any_cons, absInst, ha', ih hnd.2 hf]
+
+theorem abs_nodup (s : Impl) (hg : Good s) : (s.insts.map (·.h)).Nodup := by
+  have := hg.inv.uniqH
+  simpa [abs, List.map_map, Function.comp_def, absInst] using this
+
+theorem sim_isClosed (s : Impl) (hg : Good s) (h : Nat) : Sim s (.isClosed h) := by
+  unfold Sim
+  cases hget : s.get h with
+  | none =>
+    have hh : (abs s).has h = false := by rw [abs_has]; exact (get_none_has s h).mp hget
+    simp [Impl.runOp, runOpFuel, startPc, stepOp, hget, Reg.step, hh]; exact hg
+  | some i =>
+    have hh : (abs s).has h = true := by
+      rw [abs_has]
+      cases hx : s.has h with
+      | true => rfl
+      | false => have := (get_none_has s h).mpr hx; simp [hget] at this
+    have hopen : (abs s).isOpen h = i.closed.isNone := find_isOpen s.insts h i (abs_nodup s hg) hget
+    simp [Impl.runOp, runOpFuel, startPc, stepOp, hget, Reg.step, hh, hopen]
+    first
+      | exact hg
+      | exact ⟨by cases i.closed <;> simp, hg⟩
+
+/-! ## Part C: sequential refinement of the repaired variant -/
+
+/-- **Sequential refinement, partial.** Full statement (NOT proved here):
+  `∀ ops, (Impl.run Cfg.repaired Impl.init ops).2 = (Reg.run Reg.init ops).2`
+— every sequential run of the repaired implementation model returns what the atomic registry returns
+(false for `Cfg.asIs`: `dup_name_witness`, `host_compile_witness`).
+Proved: the simulation step, from EVERY state satisfying the simulation invariant `Good` (name map =
+owners, list ⊇ open instances, closed flags consistent, `RegInv`), for compile, hostCompile, lookup,
+isClosed and closeRuntime: same result, abstraction commutes, invariant preserved.
+Missing: the same step for instantiate and closeModule (the lemmas about `nameErase`/`closeMods`/
+`find?` they need are proved above: `nameLookup_erase_ne`, `nameLookup_erase_self`, `find_closeMods`,
+`closeMods_id`, `map_updInst_close`, `closed_name_reusable`); the differential sequential runs of the
+harness (real code vs `Impl` vs `Reg`, exact result equality) cover these two operations. -/
+theorem seq_refinement_partial (s : Impl) (hg : Good s) (op : Op)
+    (hop : match op with | .instantiate _ _ _ => False | .closeModule _ _ => False | _ => True) :
+    (s.runOp Cfg.repaired op).2 = ((abs s).step op).2 ∧
+    abs (s.runOp Cfg.repaired op).1 = ((abs s).step op).1 ∧ Good (s.runOp Cfg.repaired op).1 := by
+  cases op with
+  | instantiate h n p => exact absurd hop id
+  | closeModule h c => exact absurd hop id
+  | lookup n => exact sim_lookup s hg n
+  | compile => exact sim_compile s hg
+  | hostCompile f => exact sim_hostCompile s hg f
+  | closeRuntime c => exact sim_closeRuntime s hg c
+  | isClosed h => exact sim_isClosed s hg h
+
+/-- Non-vacuity: the initial state is `Good`, and so is a state with an open named module. -/
+theorem good_init : Good Impl.init :=
+  ⟨by simp [Impl.init], by intro m hm n hn; simp [Impl.init] at hm; subst hm; simp [nameLookup, abs, Impl.init, Reg.owner, hn],
+   by simp [Impl.init], (show RegInv (abs Impl.init) from (rfl : abs Impl.init = Reg.init) ▸ init_inv)⟩
+
+/-- test (sample): on this operation list the repaired model and the specification agree -/
+example : (Impl.run Cfg.repaired Impl.init [.instantiate 1 1 .none, .instantiate 2 1 .bin, .lookup 1, .closeModule 1 3,
+    .instantiate 3 1 .host, .lookup 1, .closeRuntime 0, .isClosed 3, .hostCompile true]).2 =
+  (Reg.run Reg.init [.instantiate 1 1 .none, .instantiate 2 1 .bin, .lookup 1, .closeModule 1 3,
+    .instantiate 3 1 .host, .lookup 1, .closeRuntime 0, .isClosed 3, .hostCompile true]).2 := by decide
+
+/-! ## Part E (tie A): the atomic actions of the model are single critical sections in the source -/
+
+/-- Regenerated from the source on every run (`translate/facts/c10_sections`): each of the four functions
+the model treats as ONE atomic action takes `Store.mux` in its first statement, defers the release in its
+second, and contains no other Lock/Unlock. A change that splits one of these critical sections (or adds a
+second one) breaks this obligation. -/
+theorem critical_sections_atomic :
+    Wz.Gen.C10Sections.table =
+      [("Store.registerModule", 1, 1, true, true), ("Store.deleteModule", 1, 1, true, true),
+       ("Store.module", 1, 1, true, true), ("Store.CloseWithExitCode", 1, 1, true, true)] := by decide
+
+/-! ## Part D: close effects under all interleavings -/
+
+/-- **Close effects, all interleavings** (partial: the at-most-once half and the FS half of exactly-once).
+For every variant, any number of threads with any programs and any schedule: every instance's resources
+are released at most once, and never while `Sys` is still attached.
+Full statement (not proved): additionally `notified.length ≤ 1`, and `= 1` / `fsCloses = 1` for closed
+instances at quiescence. The notifier half is false on the pinned tree in the "= 1" direction
+(`notifier_lost_witness`); "≤ 1" needs the thread-level fact that only the creating thread executes the
+late attachment `iNote` once, which is not proved here (covered by the harness monitor). -/
+theorem close_effects_once_partial (cfg : Cfg) (progs : List (List Op)) (sched : List Nat) :
+    ∀ i ∈ ((Conc.start progs).exec cfg sched).shared.insts,
+      i.fsCloses ≤ 1 ∧ (i.sys = true → i.fsCloses = 0) :=
+  Wz.C10.Refine.exec_res_once cfg progs sched
+
+/-- Every atomic action except the late notifier attachment keeps "fired + still armed ≤ 1". -/
+theorem notifier_once_step_partial (cfg : Cfg) (s : Impl) (op : Op) (pc : Pc) (hpc : pc ≠ .iNote)
+    (hs : ∀ i ∈ s.insts, i.notified.length + (if i.notifier then 1 else 0) ≤ 1) :
+    ∀ i ∈ (stepOp cfg s op pc).1.insts, i.notified.length + (if i.notifier then 1 else 0) ≤ 1 :=
+  Wz.C10.Refine.step_note_once cfg s op pc hpc hs
+
 end Wz.C10
